@@ -7,11 +7,13 @@ CONSTANTS
   Shapes <- S_nwL_wmS
   Ctl <- C_ping_close
   Closer = TRUE
+  Rd <- R_none
   ControlTakesLock = TRUE
   FlushAtomic = TRUE
   LatchChecked = TRUE
   CloseLatches = TRUE
   TimeoutReleases = FALSE
+  HandlerControlPath = TRUE
   Fifo = TRUE
   OnlyBad = FALSE
   Family = "main"
